@@ -36,7 +36,58 @@ THEOREMS = ['PV.C20p.' + t for t in [
   'isa_step_is_datapath', 'refinement_invariant', 'arch_state_refines', 'commits_are_isa', 'branch_decision_is_isa',
   'env_assumption_satisfiable', 'reset_gives_postReset', 'runs_satisfiable',
 ]]
-THEOREM_MODULE = {t: MODULE for t in THEOREMS}
+GEN_MODULE = 'PymtlVerif.Props.C20pGen'
+MODULES = [MODULE, GEN_MODULE]
+# generated-from-source = model (Gen/PipeGen.lean is regenerated from $PV_REPO or /repo by pregen below)
+GEN_THEOREMS = ['PV.C20pGen.' + t for t in [
+  'gen_Decode_comb_logic_out_eq', 'gen_Alu_comb_logic_out_eq', 'gen_Alu_comb_logic_ops_ne_eq',
+  'gen_ImmGen_up_immgen_imm_eq', 'cs_row_eq', 'csBits_fields', 'gen_comb_reg_en_F_reg_en_F_eq',
+  'gen_reg_F_val_F_next_eq', 'gen_comb_PC_sel_F_pc_sel_F_eq', 'gen_comb_F_squash_squash_F_eq',
+  'gen_comb_F_squash_imemresp_drop_eq', 'gen_comb_F_ostall_F_eq', 'gen_comb_F_stall_F_eq',
+  'gen_comb_F_imemreq_en_eq', 'gen_comb_F_imemresp_en_eq', 'gen_comb_F_next_val_F_eq',
+  'gen_comb_reg_en_D_reg_en_D_eq', 'gen_reg_D_val_D_next_eq', 'gen_comb_control_table_D_cs_eq',
+  'gen_comb_control_table_D_inst_val_D_eq', 'gen_comb_control_table_D_br_type_D_eq',
+  'gen_comb_control_table_D_rs1_en_D_eq', 'gen_comb_control_table_D_imm_type_D_eq',
+  'gen_comb_control_table_D_op2_sel_D_eq', 'gen_comb_control_table_D_rs2_en_D_eq',
+  'gen_comb_control_table_D_alu_fn_D_eq', 'gen_comb_control_table_D_dmemreq_type_D_eq',
+  'gen_comb_control_table_D_wb_result_sel_D_eq', 'gen_comb_control_table_D_rf_wen_pending_D_eq',
+  'gen_comb_control_table_D_csrr_D_eq', 'gen_comb_control_table_D_csrw_D_eq',
+  'gen_comb_control_table_D_rf_waddr_D_eq', 'gen_comb_control_table_D_proc2mngr_en_D_eq',
+  'gen_comb_control_table_D_mngr2proc_D_eq', 'gen_comb_control_table_D_xcelreq_type_D_eq',
+  'gen_comb_control_table_D_xcelreq_D_eq', 'gen_comb_bypass_D_op1_byp_sel_D_eq',
+  'gen_comb_bypass_D_op2_byp_sel_D_eq', 'gen_comb_hazard_D_ostall_ld_X_rs1_D_eq',
+  'gen_comb_hazard_D_ostall_ld_X_rs2_D_eq', 'gen_comb_hazard_D_ostall_xcel_X_rs1_D_eq',
+  'gen_comb_hazard_D_ostall_xcel_X_rs2_D_eq', 'gen_comb_hazard_D_ostall_hazard_D_eq', 'gen_comb_D_ostall_mngr_D_eq',
+  'gen_comb_D_ostall_D_eq', 'gen_comb_D_stall_D_eq', 'gen_comb_D_squash_D_eq', 'gen_comb_D_next_val_D_eq',
+  'gen_comb_D_mngr2proc_en_eq', 'gen_comb_reg_en_X_reg_en_X_eq', 'gen_reg_X_val_X_next_eq',
+  'gen_reg_X_rf_wen_pending_X_next_eq', 'gen_reg_X_inst_type_X_next_eq', 'gen_reg_X_alu_fn_X_next_eq',
+  'gen_reg_X_rf_waddr_X_next_eq', 'gen_reg_X_proc2mngr_en_X_next_eq', 'gen_reg_X_dmemreq_type_X_next_eq',
+  'gen_reg_X_wb_result_sel_X_next_eq', 'gen_reg_X_br_type_X_next_eq', 'gen_reg_X_xcelreq_X_next_eq',
+  'gen_reg_X_xcelreq_type_X_next_eq', 'gen_comb_br_X_pc_redirect_X_eq', 'gen_comb_X_ostall_dmem_X_eq',
+  'gen_comb_X_ostall_xcel_X_eq', 'gen_comb_X_ostall_X_eq', 'gen_comb_X_stall_X_eq', 'gen_comb_X_osquash_X_eq',
+  'gen_comb_X_dmemreq_en_eq', 'gen_comb_X_dmemreq_type_eq', 'gen_comb_X_xcelreq_en_eq', 'gen_comb_X_xcelreq_type_eq',
+  'gen_comb_X_next_val_X_eq', 'gen_comb_reg_en_M_reg_en_M_eq', 'gen_reg_M_val_M_next_eq',
+  'gen_reg_M_rf_wen_pending_M_next_eq', 'gen_reg_M_inst_type_M_next_eq', 'gen_reg_M_rf_waddr_M_next_eq',
+  'gen_reg_M_proc2mngr_en_M_next_eq', 'gen_reg_M_dmemreq_type_M_next_eq', 'gen_reg_M_wb_result_sel_M_next_eq',
+  'gen_reg_M_xcelreq_M_next_eq', 'gen_comb_M_ostall_xcel_M_eq', 'gen_comb_M_ostall_dmem_M_eq',
+  'gen_comb_M_ostall_M_eq', 'gen_comb_M_stall_M_eq', 'gen_comb_M_dmemresp_en_eq', 'gen_comb_M_xcelresp_en_eq',
+  'gen_comb_M_next_val_M_eq', 'gen_comb_reg_en_W_reg_en_W_eq', 'gen_reg_W_val_W_next_eq',
+  'gen_reg_W_rf_wen_pending_W_next_eq', 'gen_reg_W_inst_type_W_next_eq', 'gen_reg_W_rf_waddr_W_next_eq',
+  'gen_reg_W_proc2mngr_en_W_next_eq', 'gen_comb_W_rf_wen_W_eq', 'gen_comb_W_ostall_W_eq', 'gen_comb_W_stall_W_eq',
+  'gen_comb_W_proc2mngr_en_eq', 'gen_comb_W_commit_inst_eq', 'gen_inst_type_decoder_D_out_eq',
+  'gen_dpath_pc_incr_F_out_eq', 'gen_dpath_pc_sel_mux_F_out_eq', 'gen_dpath_pc_reg_F_out_next_eq',
+  'gen_dpath_pc_reg_D_out_next_eq', 'gen_dpath_inst_D_reg_out_next_eq', 'gen_dpath_immgen_D_imm_eq',
+  'gen_dpath_op1_byp_mux_D_out_eq', 'gen_dpath_op2_byp_mux_D_out_eq', 'gen_dpath_op2_sel_mux_D_out_eq',
+  'gen_dpath_pc_plus_imm_D_out_eq', 'gen_dpath_br_target_reg_X_out_next_eq', 'gen_dpath_op1_reg_X_out_next_eq',
+  'gen_dpath_op2_reg_X_out_next_eq', 'gen_dpath_store_reg_X_out_next_eq', 'gen_dpath_alu_X_out_eq',
+  'gen_dpath_alu_X_ops_ne_eq', 'gen_dpath_ex_result_reg_M_out_next_eq', 'gen_dpath_wb_result_sel_mux_M_out_eq',
+  'gen_dpath_wb_result_reg_W_out_next_eq', 'gen_dpath_rf_raddr_0_conn_eq', 'gen_dpath_rf_raddr_1_conn_eq',
+  'gen_dpath_xcelreq_addr_conn_eq', 'gen_dpath_wires_ok', 'gen_drop_set_outputs_out_rdy_eq',
+  'gen_drop_set_outputs_in__en_eq', 'gen_drop_state_transitions_snoop_state_next_eq', 'gen_drop_wires_ok',
+  'gen_top_wires_ok', 'gen_undriven',
+]]
+THEOREM_MODULE = {**{t: MODULE for t in THEOREMS}, **{t: GEN_MODULE for t in GEN_THEOREMS}}
+THEOREMS = THEOREMS + GEN_THEOREMS
 TRUSTED = [
   'Model/Pipe.lean is a hand transcription of ProcCtrlRTL.py / ProcDpathRTL.py / MiscRTL.py (DropUnitRTL, ImmGenRTL, AluRTL) / '
   'TinyRV0InstRTL.py (DecodeInstType) and of the queues ProcRTL.py instantiates (imemreq_q = BypassQueue2RTL = two chained '
@@ -47,6 +98,21 @@ TRUSTED = [
   'generated tick functions, reading signals after the combinational schedule of each cycle',
 ]
 
+TRUSTED += [
+  'translator tie for the control / datapath-select logic: tools/py2lean_pipe.py renders, with Python `ast`, every @update / @update_ff '
+  'block of ProcCtrl, DropUnitRTL, ImmGenRTL, AluRTL, DecodeInstType and of the stdlib Mux / Adder / Incrementer / RegEnRst as '
+  'instantiated by ProcDpath, the instance / `//=` structure of ProcDpath and the ctrl-dpath-drop-unit connections of ProcRTL into '
+  'Gen/PipeGen.lean (subset: `@=`, `<<=`, local aliases, if/elif/else merged into conditional expressions, & | ~ == != < > + << >>, '
+  'constant slices, concat / zext / sext / bN(k), port lists indexed by a signal; constants such as bm_*, byp_*, alu_*, NOP.., RS1.., '
+  'CSR_*, SNOOP/WAIT, c_reset_vector, XcelMsgType.* and constructor parameters are resolved statically from the modules\' own '
+  'assignments; where each class is looked up is a fixed table; anything else makes the translator fail = broken obligation). '
+  'Props/C20pGen.lean proves that the valuation of the Python signals by the terms of Model/Pipe.lean (ctrlSig / dpathSig / dropSig: the '
+  'hand-written NAMING tie, itself cross-checked by the cycle-level digest comparison that reads the same signal names) satisfies every '
+  'generated equation, register update, mux wiring and connection. Reading: a block that reads a signal after its last assignment in '
+  'the same block reads the settled valuation. Still hand-transcribed only: the queues (BypassQueue2RTL, BypassQueue1EntryRTL), '
+  'RegisterFile, and the ports ProcRTL connects to queues / interfaces (PipeGen.Top.envPorts lists them by name).',
+]
+
 ASSUMPTIONS = [
   'level 3 (PV.C20p.refinement_invariant / arch_state_refines / commits_are_isa) is about the MODEL Model/Pipe.lean and holds under: '
   '(a) Runs p N: the ISA interpreter executes N instructions from reset without stopping and none of them was overwritten by an '
@@ -55,6 +121,16 @@ ASSUMPTIONS = [
   'semantics (loads read at acceptance), mngr2proc = the source list in order, every rdy / delay arbitrary; accelerator interface '
   'unconstrained but unused by ISA-defined programs; (c) start in a PostReset state. Safety only (no liveness / fairness).',
 ]
+
+def pregen(ck):
+  """translator-based tie: regenerate lean/PymtlVerif/Gen/PipeGen.lean from the ProcCtrlRTL / ProcDpathRTL / MiscRTL / TinyRV0InstRTL /
+  ProcRTL sources of $PV_REPO (default /repo) -- written only if its content changed; Props/C20pGen.lean then re-proves
+  generated = model"""
+  import importlib.util, os
+  path = os.path.join(leanio.VERIF, 'tools', 'py2lean_pipe.py')
+  spec = importlib.util.spec_from_file_location('py2lean_pipe', path)
+  mod = importlib.util.module_from_spec(spec); spec.loader.exec_module(mod)
+  return mod.pregen()
 
 ENVIN = ['reset', 'imem_req_rdy', 'imem_resp_en', 'imem_resp_data', 'dmem_req_rdy', 'dmem_resp_en', 'dmem_resp_data',
          'mngr2proc_en', 'mngr2proc_msg', 'proc2mngr_rdy', 'xcel_req_rdy', 'xcel_resp_en', 'xcel_resp_data']
